@@ -58,6 +58,8 @@ fixed("C06","C06/parse-error/mnemonic-like-token-after-comment-in-parentheses","
 fixed("C06","C06/keyword-like-token/origin-relative/a","7b7f089","a relative $ORIGIN value that spells a type mnemonic (a, mx, ns, soa, txt, aaaa, any) was rejected, and such an origin argument of $INCLUDE was silently ignored (included records completed with the wrong origin)")
 # ---- C11
 fixed("C11","C11/accepts-altered/field/fudge-zero","a6d820e","TsigVerify substituted the default fudge 300 (and the current time) for a zero fudge / time signed found in the received TSIG, so a message whose fudge was changed from 300 to 0 still verified")
+# ---- C13
+fixed("C13","fatal/panic_close_of_closed_channel/.(*Server).serveTCP.func1","66a701b","starting a Server again while a Shutdown of it was still waiting for a handler re-created srv.shutdown under the old serve loop: the process died with 'close of closed channel' (serveTCP/serveUDP epilogue) and ShutdownContext raced with init() on the field; a start is now refused until the previous loop has drained")
 # ---- C15
 fixed("C15","C15/fault-hidden/rcode/axfr/plain","4093943","an incoming AXFR ignored an error RCODE in every envelope but the first and reported the transfer as complete and error-free")
 
